@@ -33,7 +33,7 @@ impl<M: MovingAverageConstructor> Trix<M> {
 		// C08: for an averaging kind that cannot overshoot, the constant state for the candle's source price (trix_const_step)
 		r is Ok && self.signal.convex_kind() ==> r->Ok_0.const_state(src_val(candle, self.source)),
 //@replace Ok(Self::Instance { ==> Ok(TRIXInstance {
-//@replace ReversalSignal::new(1, 1, &0.0)? ==> ReversalSignal::new3(1, 1, &R::lit(0, 1))?
+//@replace ReversalSignal::new( ==> ReversalSignal::new3(
 //@end
 }
 pub open spec fn trix_step<M: MovingAverageConstructor>(pre: &TRIXInstance<M>, src: ValueType, post: &TRIXInstance<M>, value: ValueType, sigline: ValueType, s1: Action, s2: Action, s3: Action, tma: ValueType, zero: ValueType) -> bool {
@@ -124,7 +124,7 @@ impl<M: MovingAverageConstructor> CoppockCurve<M> {
 		// C08: for averaging kinds that cannot overshoot and a non-zero source price, the constant state for that price (coppock_const_step)
 		r is Ok && self.ma1.convex_kind() && self.s3_ma.convex_kind() && src_val(candle, self.source) != 0real ==> r->Ok_0.const_state(src_val(candle, self.source)),
 //@replace Ok(Self::Instance { ==> Ok(CoppockCurveInstance {
-//@replace ReversalSignal::new(cfg.s2_left, cfg.s2_right, &0.)? ==> ReversalSignal::new3(cfg.s2_left, cfg.s2_right, &R::lit(0, 1))?
+//@replace ReversalSignal::new( ==> ReversalSignal::new3(
 //@end
 }
 pub open spec fn coppock_step<M: MovingAverageConstructor>(pre: &CoppockCurveInstance<M>, src: ValueType, post: &CoppockCurveInstance<M>, v1: ValueType, v2: ValueType, s1: Action, s2: Action, s3: Action, r1: ValueType, r2: ValueType, sum: ValueType, zero: ValueType) -> bool {
@@ -189,7 +189,7 @@ impl<M: MovingAverageConstructor> AwesomeOscillator<M> {
 		// C08: for averaging kinds that cannot overshoot, the constant state for the candle's source price (awesome_const_step)
 		r is Ok && self.ma1.convex_kind() && self.ma2.convex_kind() ==> r->Ok_0.const_state(src_val(candle, self.source)),
 //@replace Ok(Self::Instance { ==> Ok(AwesomeOscillatorInstance {
-//@replace Method::new((cfg.left, cfg.right), &0.0)? ==> <ReversalSignal as Method>::new((cfg.left, cfg.right), &R::lit(0, 1))?
+//@replace reverse: Method::new( ==> reverse: <ReversalSignal as Method>::new(
 //@end
 }
 pub open spec fn sat_inc(c: u8, b: bool) -> int { if b && c < 255 { c as int + 1 } else { c as int } }
